@@ -109,6 +109,9 @@ type Hist struct {
 	NewParserFn func(cfg lz.ParserConfig) lz.Parser
 	// Preload is the prefix of Input the supplied parser already buffers.
 	Preload []byte
+	// CaseFn, if set, builds the replayable case (drivers that wrap the
+	// history driver, e.g. the reset-prior driver, need more than PCase).
+	CaseFn func() any
 	// Record switches on the recording of every observable result in Rec.
 	Record bool
 	Rec    []RecEv
@@ -169,8 +172,12 @@ func (h *Hist) Fail(sig, format string, a ...any) {
 		h.Col.Report(engine.Violation{Property: h.Prop, Sig: full, Rank: 1 << 60})
 		return
 	}
+	var cs any = h.Case()
+	if h.CaseFn != nil {
+		cs = h.CaseFn()
+	}
 	h.Col.Report(engine.Violation{
-		Property: h.Prop, Sig: full, Msg: fmt.Sprintf(format, a...), Case: h.Case(),
+		Property: h.Prop, Sig: full, Msg: fmt.Sprintf(format, a...), Case: cs,
 		Rank: int64(h.C.Deviations())<<32 + int64(len(h.Input))<<16 + int64(len(h.C.Cs)),
 	})
 }
